@@ -282,8 +282,9 @@ class Report:
                 log("  mismatch key=%s n=%d first=%s" % (key, len(items), json.dumps(items[0])[:600]))
         ev = {"property_id": self.pid, "tier": self.tier, "seed": seed(), "level": level, "coverage": self.cov,
               "assumptions": self.assumptions, "wall_s": round(time.time() - self.t0, 2), "violations": viol}
-        os.makedirs(EVID, exist_ok=True)
-        json.dump(ev, open(os.path.join(EVID, self.pid + ".json"), "w"), indent=1)
+        evid = EVID if re.match(r"C\d\d$", self.pid) else os.path.join(ROOT, "evidence-extras")   # X..: beyond the listed properties
+        os.makedirs(evid, exist_ok=True)
+        json.dump(ev, open(os.path.join(evid, self.pid + ".json"), "w"), indent=1)
         for l in lines:
             print(l, flush=True)
         print("%s %s: states=%d transitions=%d impl_cases=%d nontrivial=%d violations=%d known=%d wall=%.1fs" % (
